@@ -355,8 +355,11 @@ func (m *machine) choose(n int) int {
 
 // currentModel returns a model of the path condition.
 func (m *machine) currentModel() smt.Model {
-	if m.modelValid {
+	if m.modelValid && m.model != nil {
 		return m.model
+	}
+	if len(m.ctx.Vars) == 0 {
+		return smt.Model{} // fully concrete path
 	}
 	res, model := m.check(nil, m.lim.OblTimeout, true)
 	if res == smt.Sat {
